@@ -314,3 +314,7 @@ Section Pred.
     rewrite Forall_forall in H1. split; [exact (H1 r Hr)|reflexivity].
   Qed.
 End Pred.
+
+Print Assumptions response_AS.
+Print Assumptions construct_multicast_good.
+Print Assumptions construct_unicast_good.
